@@ -41,7 +41,9 @@ type Decision struct {
 	Must     bool
 }
 
-func (d Decision) String() string { return fmt.Sprintf("%s/mark=%#x/must=%v", d.Outbound, d.Mark, d.Must) }
+func (d Decision) String() string {
+	return fmt.Sprintf("%s/mark=%#x/must=%v", d.Outbound, d.Mark, d.Must)
+}
 
 type condKind int
 
